@@ -689,7 +689,11 @@ def buffer_str(I, args, ins):
 
 @stub('(*bytes.Buffer).Bytes')
 def buffer_bytes(I, args, ins):
-    s = buffer_string(I, _buf(I, args[0]))
+    parts = _buf(I, args[0])
+    if all(isinstance(x, tuple) and x and x[0] == 'bytes' for x in parts):
+        elems = [e for x in parts for e in x[1]]
+        return I.make_slice(elems) if elems else NIL_SLICE
+    s = buffer_string(I, parts)
     bs = I.string_bytes(s) if not isinstance(s, str) else [ord(c) for c in s]
     return I.make_slice(bs)
 
